@@ -1,0 +1,25 @@
+//go:build verif
+
+package fsm_pool
+
+import "github.com/lidofinance/dc4bc/fsm/fsm"
+
+// Read-only accessors used by the verification tooling (build tag "verif").
+
+func (p *FSMPool) VerifStates() map[fsm.State]string {
+	out := make(map[fsm.State]string, len(p.states))
+	for k, v := range p.states {
+		out[k] = v
+	}
+	return out
+}
+
+func (p *FSMPool) VerifEvents() map[fsm.Event]string {
+	out := make(map[fsm.Event]string, len(p.events))
+	for k, v := range p.events {
+		out[k] = v
+	}
+	return out
+}
+
+func (p *FSMPool) VerifInitialEvent() fsm.Event { return p.fsmInitialEvent }
